@@ -63,6 +63,10 @@ Definition wfy_body (c : cmd) (i : invy) : bool :=
   | YHyp its vs =>
       wfx_items c PSValuesDone 1 its && is_done (items_pst c PSValuesDone 1 its)
       && wfx_hyp c (items_pos c 1 its) vs
+  | YLook its init vl its2 =>
+      wfx_items c PSValuesDone 1 its && is_done (items_pst c PSValuesDone 1 its)
+      && UnparseXLook.wfx_look c (items_pos c 1 its) init vl (render its2)
+      && wfx_items c PSValuesDone (items_pos c 1 its + 2) its2
   end.
 Lemma wfy_inv_body c i : wfy_inv c i = convx c && negb (is_set s_ignore_errors c) && wfy_body c i.
 Proof. destruct i; reflexivity. Qed.
